@@ -778,6 +778,16 @@ class _Activation:
                 idx = 1 if k.arg == "overwrite_b" else 0
                 if idx < len(argv):
                     self.oa.record(self.fi, e, argv[idx], "inplace:" + fq + "(" + k.arg + ")", self.ctx)
+        if fq == "numpy.nan_to_num":
+            # nan_to_num(x, copy=False) cleans x itself and returns it (round 8, C13-u1); the default copy=True gives a fresh array
+            cp = next((k.value for k in getattr(e, "keywords", []) if k.arg == "copy"), None)
+            if cp is None and len(getattr(e, "args", [])) >= 2:
+                cp = e.args[1]
+            if cp is not None and not (isinstance(cp, ast.Constant) and cp.value is True):
+                if argv:
+                    self.oa.record(self.fi, e, argv[0], "inplace:numpy.nan_to_num(copy=False)", self.ctx)
+                fresh = self.oa.alloc(e, self.ctx, "nan_to_num")
+                return {fresh} | (argv[0] if argv else set())
         if fq in INPLACE_FUNCS:
             for i in INPLACE_FUNCS[fq]:
                 if i < len(argv):
